@@ -7,6 +7,7 @@ import (
 	"regexp"
 	"sort"
 	"strings"
+	"verifsim/simrt"
 
 	"pgregory.net/rapid"
 )
@@ -51,8 +52,8 @@ type c20Meta struct {
 	CrossPkgCombo bool `json:"crosspackage_combinator_ref"`
 	// RefCompositions: number of allOf/anyOf nodes with a $ref branch in the world's documents (two or more: a
 	// merged target may be reached by several compositions - known finding KF-C20-5)
-	RefCompositions int `json:"ref_compositions"`
-	CrossPkgAnyOf bool `json:"crosspackage_anyof_ref"`
+	RefCompositions int  `json:"ref_compositions"`
+	CrossPkgAnyOf   bool `json:"crosspackage_anyof_ref"`
 	// Clash3: three structurally different definitions of three files share one Go name in
 	// one package (Clash, Clash_1, Clash_2 by processing order): U cannot apply (naming is
 	// order dependent by design), only "nothing declared twice", routing and exit status
@@ -92,6 +93,9 @@ func expectedRouting(w *World, f *SFile) (outAbs, pkgPath string) {
 	}
 	if out == "" || out == "-" {
 		return "-", pkg
+	}
+	if strings.HasPrefix(out, "outlnk/../") {
+		out = "deep/" + strings.TrimPrefix(out, "outlnk/../") // outlnk -> deep/dir (see Gen)
 	}
 	if !filepath.IsAbs(out) {
 		out = filepath.Join(w.Cwd, out)
@@ -234,6 +238,26 @@ func (p c20) Gen(t *rapid.T, env *Env) (*Case, []*Out) {
 		w = clash3World(t)
 	} else {
 		w = GenWorldMulti(t, maxFiles)
+	}
+	if !clash3 && w.Cwd == w.Root && rapid.IntRange(0, 7).Draw(t, "outvialink") == 0 {
+		// output names that pass through a symbolic link to a directory and come back with "..":
+		// "outlnk/../out/gen.go" is deep/out/gen.go for the operating system (outlnk -> deep/dir), not out/gen.go;
+		// a tool that tidies its output names lexically writes somewhere else
+		cp := *w
+		cp.Links = append(append([]Link{}, w.Links...), Link{Path: "outlnk", Target: "deep/dir"})
+		cp.Extra = append(append([]simrt.Node{}, w.Extra...), simrt.Node{Path: filepath.Join(w.Root, "deep/dir"), Kind: "d"})
+		via := func(v string) string {
+			if v == "" || v == "-" || filepath.IsAbs(v) || strings.HasPrefix(v, RootPH) {
+				return v
+			}
+			return "outlnk/../" + v
+		}
+		cp.Opts.Output = via(w.Opts.Output)
+		cp.Opts.SchemaOut = nil
+		for _, pr := range w.Opts.SchemaOut {
+			cp.Opts.SchemaOut = append(cp.Opts.SchemaOut, Pair{pr.K, via(pr.V)})
+		}
+		w = &cp
 	}
 	env.Stats.NoteFeat(w.Feat)
 	meta := buildC20Meta(w)
